@@ -310,7 +310,11 @@ func monitor(c hxlib.Case, outs []string) (vs []hxlib.Violation) {
 					add("C07:more-runs-than-submissions", fmt.Sprintf("task %d: start no. %d but only %d submissions so far", k, t.starts, t.subs), i)
 				}
 				t.earlyArmed = false
-				if !t.userSub {
+				// "a task that was only scheduled never starts before its scheduled time": applies to a start that no
+				// user submission stands behind AND that a schedule stands behind. A start with neither (e.g. a second
+				// run of a task that was submitted twice before its first run) is not forbidden by that clause; it is
+				// judged by the count clause (more-runs-than-submissions) only.
+				if !t.userSub && len(t.schedTimes) > 0 {
 					t.earlyArmed, t.earlyCheck, t.earlyStartLine = true, append([]int64{}, t.schedTimes...), i
 				}
 				t.lastStartIdx = i
